@@ -77,6 +77,7 @@ EndVerdict(cfg, st, en, k) ==
      ELSE IF \E c \in Comps(cfg) : CountU(en.life[c]) # st.idx[c] THEN Fail("update-count", k)
      ELSE IF \E c \in Comps(cfg) : en.status[c] # "finalized" THEN Fail("finalized", k)
      ELSE IF \E x \in 1..Len(en.fin) : en.fin[x][2] # 1 THEN Fail("adapters-finalized-once", k)
+     ELSE IF en.files # 0 THEN Fail("no-files-after-finalize", k)
      ELSE "ok"
   ELSE IF en.out = "circ" THEN
      IF en.stage # "run" THEN Fail("cycle-in-connect", k)
